@@ -132,8 +132,46 @@ def step (m : Mgr) : Ev → Mgr
 
 def run (m : Mgr) (es : List Ev) : Mgr := es.foldl step m
 
+/-! ### the two proposed repairs (hooks/C19-fix-visitor-dup-names.patch, hooks/C19-fix-visitor-pass-after-close.patch)
+
+    `updateAllFixed`: the add loop stores and starts `cfgsMap[name]` — the entry the delete loop
+    compares with — as proxy_manager.go does since eab68f8.
+    `tryStartFixed`: an iteration of the keep-alive loop looks at `stopCh` once it holds the lock and
+    does nothing after `Close()`. -/
+
+/-- `cfg = cfgsMap[name]` for an entry `c` of the slice (the key is always present) -/
+def sel (all : List VCfg) (c : VCfg) : VCfg :=
+  match lookupLast all c.name with
+  | some c' => c'
+  | none => c
+
+def updateAllFixed (m : Mgr) (cfgs : List VCfg) : Mgr :=
+  addLoop { m with cfgs := m.cfgs.filter (keeps cfgs),
+                   visitors := m.visitors.filter (fun v => !(goneNames m cfgs).contains v.cfg.name) } (cfgs.map (sel cfgs))
+
+def tryStartFixed (m : Mgr) (n : Nat) : Mgr := if m.closed then m else tryStart m n
+
+def stepFixed (m : Mgr) : Ev → Mgr
+  | .upd cfgs => updateAllFixed m cfgs
+  | .tryStart n => tryStartFixed m n
+  | e => step m e
+
+def runFixed (m : Mgr) (es : List Ev) : Mgr := es.foldl stepFixed m
+
+/-- THE SWITCHES: which reload / which loop iteration the driver engine `vmgr` compares the real
+    visitor.Manager against.  `updateAll` / `tryStart` = the code as it is; switch to
+    `updateAllFixed` / `tryStartFixed` when the corresponding repair lands in /repo (the two
+    KNOWN_FINDINGS entries C19-visitor-dup-name-restarts / C19-visitor-started-after-close then go). -/
+def activeUpdateAll (m : Mgr) (cfgs : List VCfg) : Mgr := updateAll m cfgs
+def activeTryStart (m : Mgr) (n : Nat) : Mgr := tryStart m n
+def activePass (m : Mgr) (order : List Nat) : Mgr := order.foldl activeTryStart m
+
 def Ev.isUpd : Ev → Bool
   | .upd _ => true
+  | _ => false
+
+def Ev.isTry : Ev → Bool
+  | .tryStart _ => true
   | _ => false
 
 /-- a whole pass of the keep-alive loop in iteration order `order` -/
